@@ -204,6 +204,15 @@ func validateRaw(msg messages.Builder, d []byte, strict bool) error {
 		return err
 	}
 
+	// The framing fields have fixed positions: BeginString and BodyLength open
+	// the message and CheckSum closes it. A look-alike found anywhere else
+	// (for instance inside a damaged value) must not be taken for them.
+	head := bytes.Join([][]byte{bs.ToBytes(), bl.ToBytes(), nil}, fix.Delimiter)
+	tail := bytes.Join([][]byte{cs.ToBytes(), nil}, fix.Delimiter)
+	if !bytes.HasPrefix(d, head) || !bytes.HasSuffix(d, tail) {
+		return fmt.Errorf("the message does not start with BeginString and BodyLength or does not end with CheckSum")
+	}
+
 	blVal := fix.NewInt(0)
 	if err := blVal.FromBytes(bl.Load().ToBytes()); err != nil {
 		return fmt.Errorf("invalid body length: %w", err)
